@@ -30,7 +30,11 @@ Max2(a, b) == IF a > b THEN a ELSE b
 
 HasCyc(p) == \E j \in 1..Len(p.fns) : p.fns[j].kind \in {"fix", "fixjoin", "fb"}
 
-SemOf(p, s) == IF HasCyc(p) THEN SemTableFix(p, s) ELSE SemTable(p, s)
+HasFix(p) == \E j \in 1..Len(p.fns) : p.fns[j].kind \in {"fix", "fixjoin"}
+HasFb(p) == \E j \in 1..Len(p.fns) : p.fns[j].kind = "fb"
+SemOf(p, s) == IF HasFix(p) THEN SemTableFix(p, s) ELSE IF HasFb(p) THEN SemTableFb(p, s) ELSE SemTable(p, s)
+\* property that "result differs" is charged to
+ValueProp == IF HasFix(P) THEN "C12" ELSE IF HasFb(P) THEN "C13" ELSE "C01"
 
 SVals(inp, cell) ==
     [inp |-> [i \in 1..Len(inp) |-> [f \in 1..2 |-> inp[i][f].v]], cell |-> cell]
@@ -43,7 +47,7 @@ Fresh(p, s0) ==
         cur |-> [op |-> "none"], expect |-> "", stack |-> <<>>, fn |-> <<>>,
         structs |-> <<>>, order |-> <<>>, cap |-> p.lru_cap, handed |-> {},
         dropped |-> {}, evNow |-> {}, pend |-> {}, noC03 |-> FALSE, panics |-> 0,
-        cyc |-> HasCyc(p), inject |-> 0, injected |-> FALSE, s0 |-> s0,
+        last |-> 0, cyc |-> HasCyc(p), inject |-> 0, injected |-> FALSE, s0 |-> s0,
         idv |-> <<>>, itn |-> <<>>, iq |-> <<<<1>>, <<1, 1>>, <<1, 1, 1>>>>, canon |-> <<>>, canonRev |-> 0, prevId |-> <<>>]
 
 K0 == [has |-> FALSE, v |-> -1, hs |-> <<>>, is |-> <<>>, s |-> 0, deps |-> <<>>, untr |-> FALSE,
@@ -210,13 +214,13 @@ ReadOutcome(semr, semv, isAcc) ==
         /\ Check("C14", semr.err # "cycle", <<"cyclic request returned a value", ev.v>>)
         /\ Check("C15", semr.err # "diverge", <<"diverging cycle returned a value", ev.v>>)
         /\ (semr.err = "" /\ ~isAcc) =>
-              Check("C01", ev.v = semv, <<"result differs from from-scratch evaluation", ev.v, semv, st.cur>>)
+              Check(ValueProp, ev.v = semv, <<"result differs from from-scratch evaluation", ev.v, semv, st.cur>>)
         /\ (semr.err \in {"specforeign", "spectwice"}) =>
               Check("C10", FALSE, <<"specify misuse did not panic", semr.err>>)
     ELSE IF ev.ok = 0 THEN
         IF ev.kind = "inject" THEN TRUE
         ELSE IF semr.err = "cycle" THEN Check("C14", ev.kind = "cycle", <<"wrong panic for cycle", ev.kind, ev.msg>>)
-        ELSE IF semr.err = "diverge" THEN Check("C15", ev.kind = "iterlimit", <<"wrong panic for divergence", ev.kind, ev.msg>>)
+        ELSE IF semr.err = "diverge" THEN Check("C15", ev.kind \in {"iterlimit", "cancel_pp"}, <<"wrong panic for divergence", ev.kind, ev.msg>>)
         ELSE IF semr.err \in {"specforeign", "spectwice"} THEN TRUE
         ELSE Check(IF inj THEN "C22" ELSE "C01", FALSE, <<"unexpected panic", ev.kind, ev.msg, st.cur>>)
     ELSE TRUE
@@ -230,10 +234,11 @@ OnRetRead ==
         LET semr == st.sem[j] IN
         /\ ReadOutcome(semr, semr.v, FALSE)
         /\ (ev.ok = 1 /\ semr.err = "") =>
-              Check("C01", Len(ev.hs) = Len(semr.ss), <<"number of created structs differs", ev.hs, Len(semr.ss)>>)
+              Check("C01", Len(ev.hs) = Len(semr.ss) /\ ev.ni = Len(semr.is), <<"number of exported handles differs", ev.hs, Len(semr.ss), ev.ni, Len(semr.is)>>)
         /\ (ev.ok = 1 /\ Fn(k).untr) =>
               Check("C04", Fn(k).execRev = st.rev, <<"untracked function not re-executed in this revision", k>>)
         /\ st' = [Touch(st, k) EXCEPT !.cur = [op |-> "none"], !.stack = <<>>,
+                     !.last = IF ev.ok = 1 THEN j ELSE 0,
                      !.handed = IF ev.ok = 1 THEN st.handed \cup {<<ev.s, ev.v>>} ELSE st.handed,
                      !.noC03 = st.noC03 \/ ev.ok = 0,
                      !.panics = IF ev.ok = 0 THEN st.panics + 1 ELSE st.panics]
@@ -265,6 +270,31 @@ OnRetRead ==
 OnRet ==
     /\ Check("C06", st.pend = {}, <<"stale tracked structs not discarded", st.pend>>)
     /\ IF IsMutOp(st.cur.op) THEN OnRetMut ELSE OnRetRead
+
+\* top-level field getters on the handles of the result just returned (st.last = fn index)
+OnTfld ==
+    LET j == st.last
+        ok == j > 0 /\ st.sem[j].err = "" /\ ev.pos <= Len(st.sem[j].ss)
+        sr == IF ok THEN st.sem[j].ss[ev.pos] ELSE SRec(-1, -1, -1)
+        good == ok /\ ev.ident = sr.ident /\ ev.x = sr.x /\ ev.y = sr.y
+    IN
+    /\ Check("C01", good, <<"struct fields read at top level differ from from-scratch evaluation", j, ev.pos, ev.id, <<ev.ident, ev.x, ev.y>>, sr>>)
+    /\ Check("C07", good, <<"struct fields read at top level differ from from-scratch evaluation", j, ev.pos, ev.id>>)
+    /\ st' = st
+
+OnTint ==
+    LET j == st.last
+        ok == j > 0 /\ st.sem[j].err = "" /\ ev.pos <= Len(st.sem[j].is)
+        exp == IF ok THEN st.sem[j].is[ev.pos].v ELSE -2
+    IN
+    /\ Check("C01", ok /\ ev.v = exp, <<"interned field read at top level differs", j, ev.pos, ev.id, ev.v, exp>>)
+    /\ Check("C07", ok /\ ev.v = exp, <<"interned field read at top level differs", j, ev.pos, ev.id, ev.v, exp>>)
+    /\ Check("C08", ok /\ ev.v = exp, <<"interned field read at top level differs", j, ev.pos, ev.id, ev.v, exp>>)
+    /\ st' = st
+
+OnTpanic ==
+    /\ Check("C01", FALSE, <<"field getter panicked at top level", ev.kind, ev.msg>>)
+    /\ st' = st
 
 OnSub ==
     \* intermediate result of the creator inside a `gets`
@@ -325,7 +355,7 @@ OnRd ==
          [] d.t = "cell" ->
               Check("C04", ev.v = st.cell[d.a], <<"cell read differs", d, ev.v>>)
          [] d.t = "fn" ->
-              /\ (st.sem[d.a].err = "") =>
+              /\ (st.sem[d.a].err = "" /\ ~st.cyc) =>
                     Check("C01", ev.v = st.sem[d.a].v, <<"nested result differs from from-scratch evaluation", d, ev.v, st.sem[d.a].v>>)
               /\ Fn(d.k).untr =>
                     Check("C04", Fn(d.k).execRev = st.rev, <<"untracked function not re-executed in this revision", d.k>>)
@@ -520,6 +550,9 @@ TraceNext ==
          [] ev.e = "op" -> OnOp
          [] ev.e = "ret" -> OnRet
          [] ev.e = "sub" -> OnSub
+         [] ev.e = "tfld" -> OnTfld
+         [] ev.e = "tint" -> OnTint
+         [] ev.e = "tpanic" -> OnTpanic
          [] ev.e = "we" -> OnWe
          [] ev.e = "dv" -> OnDv
          [] ev.e = "bs" -> OnBs
